@@ -524,6 +524,11 @@ func (t *smallHuffCodeTable) genForDists(codes []huffCode, count []uint16, maxSy
 
 	codeListLen := countTotal[16]
 	if codeListLen == 0 {
+		// no distance code at all: every lookup must be invalid, not
+		// whatever the previous block left in the table
+		for i := range t.ShortCodeLookup {
+			t.ShortCodeLookup[i] = 0
+		}
 		return
 	}
 	var codeList [distLen + 2]uint32 /* The +2 is for the extra codes in the static header */
@@ -543,6 +548,10 @@ func (t *smallHuffCodeTable) genForDists(codes []huffCode, count []uint16, maxSy
 	}
 	copySize := (1 << (lastLength - 1))
 
+	// unassigned patterns of an incomplete code must read as invalid
+	for i := range t.ShortCodeLookup[:copySize] {
+		t.ShortCodeLookup[i] = 0
+	}
 	for ; lastLength <= distLookupBits; lastLength++ {
 		copy(t.ShortCodeLookup[copySize:], t.ShortCodeLookup[:copySize])
 		copySize *= 2
